@@ -3,3 +3,4 @@ pub mod c21;
 pub mod c22;
 pub mod probe;
 pub mod hist;
+pub mod traceops;
